@@ -43,6 +43,15 @@ func gen(tier string, seed int64) []hx.Scenario {
 		}
 		out = append(out, hx.Scenario{Name: "anon-malleability", Cfg: fmt.Sprintf("ring=%d", n), Run: func(x *hx.Ctx) { anonMalleable(x, n) }})
 	}
+	// the same schemes over a group whose point and scalar encodings differ in length (65 / 32 bytes; concrete twin: P-256)
+	for _, l := range []int{0, 1, 33} {
+		out = append(out, hx.Scenario{Name: "ecies", Cfg: fmt.Sprintf("shape=p256 len=%d", l), Shape: "p256", Run: func(x *hx.Ctx) { eciesCase(x, l) }})
+	}
+	for n := 1; n <= 3; n++ {
+		for _, l := range []int{0, 16} {
+			out = append(out, hx.Scenario{Name: "anon", Cfg: fmt.Sprintf("shape=p256 ring=%d len=%d", n, l), Shape: "p256", Run: func(x *hx.Ctx) { anonCase(x, n, l) }})
+		}
+	}
 	for _, g := range []string{"G1", "G2"} {
 		for _, l := range []int{0, 1, 16, 31, 32, 33, 64} {
 			out = append(out, hx.Scenario{Name: "ibe-cca", Cfg: fmt.Sprintf("on=%s len=%d", g, l), Pairing: true, Run: func(x *hx.Ctx) { ibeCCA(x, g, l) }})
